@@ -431,7 +431,9 @@ spif_bool_t
 spif_mbuff_clear(spif_mbuff_t self, spif_uint8_t c)
 {
     ASSERT_RVAL(!SPIF_MBUFF_ISNULL(self), FALSE);
-    memset(self->buff, c, self->len);
+    if (self->buff && self->len) {
+        memset(self->buff, c, self->len);
+    }
     return TRUE;
 }
 
